@@ -59,7 +59,12 @@ int main(void)
       t = NULL; loaded = 0;
       printf("destroy\n");
     } else if (t) {
-      int r = hwv_config_line(t, line);
+      int r;
+#ifdef HWLOC_VERIF
+      /* the model of the synthetic backend (Topo/SynthBuild.v) needs the description when insertions are traced */
+      if (!strncmp(line, "src synthetic ", 14) && hwloc_verif_insert_cb) printf("synthdesc %s\n", line + 14);
+#endif
+      r = hwv_config_line(t, line);
       if (r == 0) printf("unknown-command %s\n", line);
       else if (r == 2) printf("config rc=-1 errno=%s\n", hwv_errno_class(errno));
       else if (r < 0) printf("config bad-line\n");
